@@ -11,9 +11,10 @@
    (2) spec oracles, evaluated on the implementation's bits and using only the reference bucket of
        Model/TokenBucket.v and the configured rate/burst of each limiter (NOT the composite model, NOT the order):
        bound    — C18: for every limiter, admitted since its creation <= burst + rate * elapsed, at every prefix;
-       conform  — C18: where a single bucket decides (AllowOperation, PerIPLimiter.Allow, TokenBucket.Allow) the bits
-                  equal those of one never-cleaned reference bucket per key (never refused while a token is there,
-                  cleanup invisible);
+       within   — C18: where a single bucket decides (AllowOperation, PerIPLimiter.Allow, TokenBucket.Allow): a caller
+                  whose whole call stream conforms to the limiter's (rate, burst) envelope is never refused;
+       cleanup  — C18: the bits equal those of a second instance of the REAL code, given the same calls, whose cleanup
+                  interval is 2^63-1 ns (no pass ever runs): cleanup is invisible;
        isolate  — C18/C19: a request of a client whose whole request stream conforms to its per-IP and per-connection
                   limits is admitted whenever a reference global bucket charged with the ADMITTED requests only
                   still holds a token. *)
@@ -27,7 +28,8 @@ Inductive target :=
 | TPerIP (rate : Q) (burst : Z) (iv_ns : Z)   (* NewPerIPLimiter(rate, burst, iv); calls are Req ip 0 *)
 | TBucket (rate : Q) (burst : Z).             (* NewTokenBucket(rate, burst);  calls are Req 0 0 *)
 
-Record case := { c_target : target; c_strict : bool; c_evs : list (Z * event); c_obs : list bool }.
+(* c_obs: the admit bits; c_obs_nc: the bits of the same calls on an instance whose cleanup never runs *)
+Record case := { c_target : target; c_strict : bool; c_evs : list (Z * event); c_obs : list bool; c_obs_nc : list bool }.
 
 Definition cfg (g ipr ipb cr cb rd wr rdir mo iv : Z) : config :=
   {| GlobalRequestsPerSecond := g; PerIPRequestsPerSecond := ipr; PerIPBurstSize := ipb;
@@ -35,8 +37,25 @@ Definition cfg (g ipr ipb cr cb rd wr rdir mo iv : Z) : config :=
      ReadLargeOpsPerSecond := rd; WriteLargeOpsPerSecond := wr; ReaddirOpsPerSecond := rdir;
      MountOpsPerMinute := mo; CleanupInterval := iv |}.
 
+(* the limits of a target.  None of the three depends on the address / connection inside a key, so the values are
+   computed once per case (limits_of looks fields up by name on every call) and shared by a closure. *)
+Definition memo (lim : limits) : limits :=
+  let g := (rate_of lim KGlobal, burst_of lim KGlobal) in
+  let i := (rate_of lim (KIP 0), burst_of lim (KIP 0)) in
+  let c := (rate_of lim (KConn 0), burst_of lim (KConn 0)) in
+  let o1 := (rate_of lim (KOp 0 ReadLarge), burst_of lim (KOp 0 ReadLarge)) in
+  let o2 := (rate_of lim (KOp 0 WriteLarge), burst_of lim (KOp 0 WriteLarge)) in
+  let o3 := (rate_of lim (KOp 0 Readdir), burst_of lim (KOp 0 Readdir)) in
+  let o4 := (rate_of lim (KOp 0 Mount), burst_of lim (KOp 0 Mount)) in
+  let con := conn_on lim in let i1 := interval_ip lim in let i2 := interval_op lim in
+  let pick := fun k => match k with
+                       | KGlobal => g | KIP _ => i | KConn _ => c
+                       | KOp _ ReadLarge => o1 | KOp _ WriteLarge => o2 | KOp _ Readdir => o3 | KOp _ Mount => o4
+                       end in
+  {| rate_of := fun k => fst (pick k); burst_of := fun k => snd (pick k); conn_on := con;
+     interval_ip := i1; interval_op := i2 |}.
 Definition lim_of (t : target) : limits :=
-  match t with
+  memo match t with
   | TFull c => limits_of c
   | TPerIP r b iv => {| rate_of := fun _ => r; burst_of := fun _ => inject_Z b; conn_on := false;
                         interval_ip := ns_to_s iv; interval_op := 0 |}
@@ -111,7 +130,7 @@ Definition bound_fail (c : case) : list (N * N) :=
              (match c_target c with TPerIP _ _ _ => [] | _ => [(KGlobal, (t0, 0%Z))] end)
              (abs_times t0_ns (c_evs c)) (c_obs c).
 
-(* ---- (2b) conform: a single deciding bucket behaves as one never-cleaned reference bucket ---- *)
+(* ---- (2b) within: a caller within the limiter's envelope is never refused (single deciding bucket) ---- *)
 Definition single_key (t : target) (ev : event) : option key :=
   match t, ev with
   | TFull _, Op ip op => Some (KOp ip op)
@@ -119,27 +138,41 @@ Definition single_key (t : target) (ev : event) : option key :=
   | TBucket _ _, Req _ _ => Some KGlobal
   | _, _ => None
   end.
-Fixpoint conform_walk (strict : bool) (t : target) (lim : limits) (idx : N) (m : list (key * tb))
+(* reference bucket of a key fed with ALL calls on that key, and whether it admitted all of them so far *)
+Definition kref := list (key * (tb * bool)).
+Fixpoint kfind (k : key) (m : kref) : option (tb * bool) :=
+  match m with [] => None | (k', v) :: r => if key_eqb k k' then Some v else kfind k r end.
+Definition kset (k : key) (v : tb * bool) (m : kref) : kref :=
+  (k, v) :: filter (fun e => negb (key_eqb k (fst e))) m.
+Fixpoint within_walk (strict : bool) (t : target) (lim : limits) (idx : N) (m : kref)
          (evs : list (Q * event)) (obs : list bool) : list (N * N) :=
   match evs, obs with
   | (now, ev) :: r, o :: os =>
       match single_key t ev with
-      | None => conform_walk strict t lim (idx + 1)%N m r os
+      | None => within_walk strict t lim (idx + 1)%N m r os
       | Some k =>
-          let b := match find k m with Some b => b | None => mk (rate_of lim k) (burst_of lim k) now end in
+          let '(b, ok) := match kfind k m with Some v => v | None => (mk (rate_of lim k) (burst_of lim k) now, true) end in
           let '(a, b') := allow b now in
-          if Bool.eqb a o then conform_walk strict t lim (idx + 1)%N (upd k b' m) r os
-          else if strict then [(idx, code_specfail)]
-          else if near1 (tokens_at b now) then [] else [(idx, code_specfail)]
+          if strict || negb (near1 (tokens_at b now)) then
+            if ok && a && negb o then [(idx, code_specfail)]
+            else within_walk strict t lim (idx + 1)%N (kset k (b', ok && a) m) r os
+          else []
       end
   | _, _ => []
   end.
-Definition conform_fail (c : case) : list (N * N) :=
+Definition within_fail (c : case) : list (N * N) :=
   let lim := lim_of (c_target c) in
   let t0 := ns_to_s t0_ns in
-  conform_walk (c_strict c) (c_target c) lim 0%N
-               (match c_target c with TBucket r b => [(KGlobal, mk r (inject_Z b) t0)] | _ => [] end)
-               (abs_times t0_ns (c_evs c)) (c_obs c).
+  within_walk (c_strict c) (c_target c) lim 0%N
+              (match c_target c with TBucket r b => [(KGlobal, (mk r (inject_Z b) t0, true))] | _ => [] end)
+              (abs_times t0_ns (c_evs c)) (c_obs c).
+
+(* ---- (2d) cleanup: same bits as the real code without cleanup passes ---- *)
+Definition cleanup_fail (c : case) : list (N * N) :=
+  match first_diff Bool.eqb 0%N (c_obs c) (c_obs_nc c) with
+  | Some i => [(i, code_specfail)]
+  | None => []
+  end.
 
 (* ---- (2c) isolate: compliant clients are admitted while the admitted traffic leaves global room ---- *)
 (* reference bucket of a client fed with ALL of its requests, and whether it admitted all of them so far *)
